@@ -27,15 +27,21 @@ func (pr *previewReader) RenderPreview(r io.Reader, h meta.PreviewHeader) error 
 	// declare more than they hold.
 	const maxSize = 2048
 	var img []byte
-	buf := make([]byte, maxSize)
+	// read in pieces that start small and double: a box that declares much and
+	// holds little costs what it holds
+	chunk := uint32(64)
 	for uint32(len(img)) < h.Size {
 		n := h.Size - uint32(len(img))
-		if n > maxSize {
-			n = maxSize
+		if n > chunk {
+			n = chunk
 		}
-
-		readLength, err := r.Read(buf[:n])
-		img = append(img, buf[:readLength]...)
+		if uint32(cap(img)-len(img)) < n {
+			grown := make([]byte, len(img), 2*cap(img)+int(n))
+			copy(grown, img)
+			img = grown
+		}
+		readLength, err := r.Read(img[len(img) : len(img)+int(n)])
+		img = img[:len(img)+readLength]
 		if err != nil {
 			if err == io.EOF {
 				break
@@ -48,6 +54,9 @@ func (pr *previewReader) RenderPreview(r io.Reader, h meta.PreviewHeader) error 
 		}
 		if readLength == 0 {
 			break
+		}
+		if chunk < maxSize {
+			chunk *= 2
 		}
 	}
 
